@@ -61,27 +61,29 @@ type Engine struct {
 	forms         []rawForm
 	rebound       map[string]string
 	lemmaSelf     map[string]string
-	implCache     map[string][]string // lemma obligation owner -> its own axiom text (excluded from its own proof)
+	implCache     map[string][]string
+	assumedPosts  map[string]bool // lemma obligation owner -> its own axiom text (excluded from its own proof)
 	nonNilGlobals map[string]bool
 	loaded        []*packages.Package
 	declared      map[string]bool
 }
 
 type FuncExec struct {
-	eng       *Engine
-	fn        *ssa.Function
-	contract  *FuncContract
-	name      string
-	headers   map[*ssa.BasicBlock]int
-	loopBody  map[*ssa.BasicBlock]map[*ssa.BasicBlock]bool
-	counter   int
-	modKeys   map[string]bool
-	modAll    bool
-	havocGens map[string]bool
-	paths     int
-	siteOrd   map[ssa.Instruction]string
-	sweep     bool // no contract: panic-class obligations only
-	idom      map[*ssa.BasicBlock]*ssa.BasicBlock
+	eng          *Engine
+	fn           *ssa.Function
+	contract     *FuncContract
+	name         string
+	headers      map[*ssa.BasicBlock]int
+	loopBody     map[*ssa.BasicBlock]map[*ssa.BasicBlock]bool
+	counter      int
+	modKeys      map[string]bool
+	modAll       bool
+	havocGens    map[string]bool
+	paths        int
+	siteOrd      map[ssa.Instruction]string
+	sweep        bool // no contract: panic-class obligations only
+	idom         map[*ssa.BasicBlock]*ssa.BasicBlock
+	assertAnchor map[ssa.Instruction][]*AssertAt
 }
 
 func (fx *FuncExec) modified(key string) bool {
@@ -493,6 +495,14 @@ func (x *Exec) checkPost(r Ret) {
 	sc := x.specCtx(st, st.heap, st.old, names)
 	k := 0
 	for _, en := range c.Ensures {
+		if strings.HasPrefix(en.Tag, "assumed") {
+			// the stated meaning of a primitive (e.g. of terminal output): not provable from the
+			// body, assumed at call sites and listed as an assumption
+			x.eng.mu.Lock()
+			x.eng.assumedPosts[fx.name+": "+en.Text] = true
+			x.eng.mu.Unlock()
+			continue
+		}
 		for _, cj := range x.eng.cs.goals(en.E) {
 			k++
 			g := sc.evalBool(cj)
@@ -537,6 +547,9 @@ func (x *Exec) walk(st *State, fn *ssa.Function, b *ssa.BasicBlock, i int, prev 
 	}
 	for ; i < len(b.Instrs); i++ {
 		ins := b.Instrs[i]
+		if top && fx.contract != nil && len(fx.contract.Asserts) > 0 {
+			x.checkAsserts(st, b, ins)
+		}
 		switch ins := ins.(type) {
 		case *ssa.Phi:
 			continue
@@ -860,4 +873,69 @@ func isVarCellPhi(phi *ssa.Phi) bool {
 		}
 	}
 	return true
+}
+
+// checkAsserts proves the inline assertions anchored at the source line of ins (once per line:
+// at the first instruction of that line in the function).
+func (x *Exec) checkAsserts(st *State, b *ssa.BasicBlock, ins ssa.Instruction) {
+	fx := x.fx
+	if fx.assertAnchor == nil {
+		fx.assertAnchor = map[ssa.Instruction][]*AssertAt{}
+		for _, as := range fx.contract.Asserts {
+			var first ssa.Instruction
+			for _, bb := range fx.fn.Blocks {
+				for _, in := range bb.Instrs {
+					if _, isDbg := in.(*ssa.DebugRef); isDbg {
+						continue
+					}
+					txt, _ := fx.eng.srcLineFull(in.Pos())
+					if txt != "" && strings.Contains(txt, as.At) {
+						first = in
+						break
+					}
+				}
+				if first != nil {
+					break
+				}
+			}
+			if first != nil {
+				fx.assertAnchor[first] = append(fx.assertAnchor[first], as)
+			} else {
+				fx.eng.mu.Lock()
+				fx.eng.unsup[fx.name] = append(fx.eng.unsup[fx.name], "assert anchor not found: "+as.At)
+				fx.eng.mu.Unlock()
+			}
+		}
+	}
+	for n, as := range fx.assertAnchor[ins] {
+		names := x.paramNames(st, fx.contract)
+		sc := x.specCtx(st, st.heap, st.old, names)
+		sc.resolver = func(name string) (Value, bool) {
+			for _, in := range b.Instrs {
+				if phi, ok := in.(*ssa.Phi); ok && phi.Comment == name {
+					return st.env[phi], true
+				}
+			}
+			return x.lookupLocal(st, name, b)
+		}
+		k := 0
+		for _, cj := range x.eng.cs.goals(as.C.E) {
+			k++
+			g := sc.evalBool(cj)
+			x.eng.oblige(fx, st, "assert", fmt.Sprintf("%s#%d.%d", as.At, n+1, k), g, cj.String(), ins.Pos())
+			st.assume(g)
+		}
+	}
+}
+
+func (e *Engine) srcLineFull(pos token.Pos) (string, string) {
+	if !pos.IsValid() {
+		return "", ""
+	}
+	p := e.fset.Position(pos)
+	lines := e.fileLines(p.Filename)
+	if p.Line-1 < len(lines) && p.Line >= 1 {
+		return lines[p.Line-1], fmt.Sprintf("%s:%d", p.Filename, p.Line)
+	}
+	return "", ""
 }
